@@ -11,6 +11,17 @@ types, for all keys, values and operation histories; no size bounds.
 The model functions return `Except String _`: `.error` is a Go panic / a non-terminating recursion.
 Every theorem below therefore also says "no internal panic (index out of range, nil slot, iterator
 overrun of its 32-element stack, `mergeIntoNode` recursing forever) is reachable".
+
+SCOPE (audit finding 11).  §5 (`refinement`) is the refinement theorem for `set` / `delete` histories of
+the TRIE starting from `Hamt.empty`; §6 gives one-step specifications of the `fp.Map` / `fp.Set`
+wrappers over a hamt base.  The refinement theorem over ALL operations the property lists (Updated,
+Removed, UpdatedWith, Concat, Incl, Excl, Diff, Intersect, SubsetOf, MapBuilder / SetBuilder) for
+every mixed history starting from ANY constructor INCLUDING THE ZERO VALUE (`FMap.base = none`,
+`FSet.set = none`, the `UnsafeGoMap` / `UnsafeGoSet` fallbacks), with Get / Contains / Size / IsEmpty /
+Iterator of the wrappers related to the reference, is `Spec/C03All.lean`
+(`refinement_all`, `refinement_from`, `set_refinement_all`, `subsetOf_all`, `setBuilder_history`; the
+hypothesis `Agree h` = "Eqv is Go's ==" needed exactly for the zero-value fallbacks, and the
+counterexamples `zero_value_needs_agree` / `zero_set_needs_agree` without it).
 -/
 namespace FpVerif.Spec.C03
 open FpVerif FpVerif.Hamt
@@ -194,6 +205,8 @@ theorem refinement_perm (hl : LawfulHash h) (heq : ∀ a b, h.eqv a b = true ↔
   rw [mem_iff hd1, mem_iff hd2, hlook]
 
 -- 6. constructors and the fp.Map / fp.Set wrapper operations (immutable base) ----------------------------
+-- (one-step specifications over a hamt base; every base incl. the zero value, whole histories, and
+--  Size / IsEmpty / Iterator of the wrappers: `Spec/C03All.lean`)
 
 /-- `immutable.Map(hasher, tuples...)` — equally `MapBuilder`, `Add`…, `Build` — never panics,
     yields a well-formed map in which, for every key, the LAST tuple with an `Eqv` key wins. -/
